@@ -51,6 +51,8 @@ type Reader struct {
 	pos   int              // 当前读取位置
 	order binary.ByteOrder // 字节序
 	err   error            // 读取过程中遇到的错误
+	// nesting 为当前读取器所处的消息嵌套层数（顶层为 0），见 MaxMessageNesting
+	nesting int
 }
 
 // NewReaderFromPool 从池中获取一个读取器
@@ -560,6 +562,9 @@ func (r *Reader) ReadInto(vals ...interface{}) error {
 // 线格式：| 4 字节 body 长度 | body | 4 字节消息名长度 | 消息名 |。
 // 解码失败时返回 (nil, err)，且不会修改调用者已传入的其它变量；内部会先读完 body/name 再解码，故流位置会正确前移。
 func (r *Reader) ReadMessage(codec Codec) (messageInstance any, err error) {
+	if r.nesting >= MaxMessageNesting {
+		return nil, fmt.Errorf("message nested deeper than %d levels", MaxMessageNesting)
+	}
 	var messageData []byte
 	var messageName string
 	if err = r.ReadInto(&messageData, &messageName); err != nil {
@@ -570,6 +575,7 @@ func (r *Reader) ReadMessage(codec Codec) (messageInstance any, err error) {
 		// 内部消息反序列化
 		internalReader := NewReaderFromPool(messageData)
 		defer ReleaseReaderToPool(internalReader)
+		internalReader.nesting = r.nesting + 1
 		messageInstance, err = DeserializeRemotingMessage(codec, internalReader, messageDesc)
 		if err != nil {
 			return
@@ -651,4 +657,5 @@ func (r *Reader) Reset(data []byte) {
 	r.buf = data
 	r.pos = 0
 	r.err = nil
+	r.nesting = 0
 }
